@@ -271,6 +271,13 @@ func caseAsCommands(c Node) []Node {
 		out = append(out, Node{"kind": "settransform", "name": nstr(t, "name"), "stmts": nlist(t, "stmts")})
 	}
 	for _, cmd := range nlist(c, "cmds") {
+		for _, d := range nlist(cmd, "defs_before") {
+			pred := nlist(d, "pred")
+			if pred == nil {
+				pred = []Node{}
+			}
+			out = append(out, Node{"kind": "setpattern", "name": nstr(d, "name"), "es": nlist(d, "es"), "pred": pred})
+		}
 		out = append(out, commandAsNode(cmd))
 	}
 	return out
